@@ -34,6 +34,8 @@ def build(desc):
                                                            delete the decoy, add x   (stale caches, index re-use)
       {"phase_order": "comp_first" | "redefine"}           component phases before the system phases / system
                                                            phases defined twice with different names
+      {"moved": {"x": leaf, "first_parent": name}}         the leaf is first attached to another parent, the system is solved, the
+                                                           leaf is deleted and re-added under the same name at its real place
       {"presolve_rename": {"x": name}}                     x is built under another name, the system is solved once, then x gets
                                                            its name through change_comp() (stale names in caches of analyses)
       {"retouch": {"x": name}}                             a component without phase configuration gets a decoy one and is
@@ -52,6 +54,7 @@ def build(desc):
     bridge = plan.get("bridge")
     retouch = plan.get("retouch")
     dup = plan.get("dupbridge")
+    moved = plan.get("moved")
     pre = plan.get("presolve_rename")
     alias = {pre["x"]: "__pre_" + pre["x"]} if pre else {}
     sys = None
@@ -70,6 +73,8 @@ def build(desc):
             sys.add_source(comp, **kw)
         else:
             par = [alias.get(q, q) for q in c["parents"]]
+            if moved and moved["x"] == c["name"] and not moved.get("_done"):
+                par = [moved["first_parent"]]
             if bridge and bridge["child"] == c["name"]:
                 sys.add_comp(par[bridge["slot"]], comp=PSwitch("__bridge"))
                 par[bridge["slot"]] = "__bridge"
@@ -113,6 +118,18 @@ def build(desc):
             sys.del_comp("__bridge", del_childs=False)
         if dup:
             sys.del_comp("__dup", del_childs=False)
+        if moved:
+            # the leaf sits at another place; everything is solved (caches filled), then it is deleted and re-added under the
+            # SAME name at its real place - the name -> node index map is the same as before, the wiring is not
+            c = [c for c in comps if c["name"] == moved["x"]][0]
+            quiet_call(sys.solve)
+            sys.del_comp(c["name"])
+            moved["_done"] = True
+            try:
+                add(c)
+            finally:
+                moved.pop("_done", None)
+            comp_phases([c])
         if pre:
             # the component was built under another name; everything is solved once (every cache an analysis keeps is filled)
             # and only then it gets its final name through change_comp() - names cached by an analysis must not survive that
@@ -290,8 +307,10 @@ def quiet_call_timeout(seconds, f, *a, **k):
 
     def on_alarm(signum, frame):
         raise HarnessTimeout("no return within %d s" % seconds)
+    import time
     old = signal.signal(signal.SIGALRM, on_alarm)
-    signal.alarm(int(seconds))
+    t0 = time.time()
+    outer = signal.alarm(int(seconds))          # seconds left on the run's global watchdog (check.py), 0 if none
     try:
         return quiet_call(f, *a, **k)
     except HarnessTimeout as e:          # raised outside quiet_call's own try block
@@ -299,6 +318,8 @@ def quiet_call_timeout(seconds, f, *a, **k):
     finally:
         signal.alarm(0)
         signal.signal(signal.SIGALRM, old)
+        if outer:
+            signal.alarm(max(1, int(outer - (time.time() - t0))))
 
 
 def obs_vectors(desc, obs):
